@@ -71,6 +71,9 @@ with evars (e : expr) : list var :=
   | ENot a => evars a
   | EBound v => [v]
   | EExists _ p => allvars p
+  | EIn _ a _ => evars a
+  | ECoalesce a b => evars a ++ evars b
+  | EIf c a b => evars c ++ evars a ++ evars b
   end.
 
 (* can the pattern yield the same solution twice?  [df p]: certainly not, by a
@@ -120,8 +123,9 @@ Fixpoint forgets (p : alg) : bool :=
 
 Fixpoint has_exists (e : expr) : bool :=
   match e with
-  | ECmp _ a b | EAnd a b | EOr a b => has_exists a || has_exists b
-  | ENot a => has_exists a
+  | ECmp _ a b | EAnd a b | EOr a b | ECoalesce a b => has_exists a || has_exists b
+  | ENot a | EIn _ a _ => has_exists a
+  | EIf c a b => has_exists c || has_exists a || has_exists b
   | EExists _ _ => true
   | _ => false
   end.
@@ -148,8 +152,9 @@ Fixpoint bool_vars (p : alg) : list var :=
   end
 with bool_vars_e (e : expr) : list var :=
   match e with
-  | ECmp _ a b | EAnd a b | EOr a b => bool_vars_e a ++ bool_vars_e b
-  | ENot a => bool_vars_e a
+  | ECmp _ a b | EAnd a b | EOr a b | ECoalesce a b => bool_vars_e a ++ bool_vars_e b
+  | ENot a | EIn _ a _ => bool_vars_e a
+  | EIf c a b => bool_vars_e c ++ bool_vars_e a ++ bool_vars_e b
   | EExists _ p => bool_vars p
   | _ => []
   end.
@@ -167,8 +172,10 @@ Fixpoint cmp_vars (p : alg) : list var :=
 with cmp_vars_e (e : expr) : list var :=
   match e with
   | ECmp _ a b => evars a ++ evars b ++ cmp_vars_e a ++ cmp_vars_e b
-  | EAnd a b | EOr a b => cmp_vars_e a ++ cmp_vars_e b
+  | EAnd a b | EOr a b | ECoalesce a b => cmp_vars_e a ++ cmp_vars_e b
   | ENot a => cmp_vars_e a
+  | EIn _ a _ => evars a ++ cmp_vars_e a
+  | EIf c a b => cmp_vars_e c ++ cmp_vars_e a ++ cmp_vars_e b
   | EExists _ p => cmp_vars p
   | _ => []
   end.
@@ -202,11 +209,13 @@ Fixpoint scan (names : list term) (inex : bool) (pushed : list var) (p : alg) {s
                   && (negb (nonempty pushed) || subsetv (inter vs pushed) (cert a))
                then 0 else 6
            end)
+      |>| (if nonempty (inter (cmp_vars_e e) (bool_vars a ++ bool_vars b)) then 9 else 0)
       |>| scan names inex pushed a
       |>| scan names inex (pushed ++ maybe a) b
       |>| scan_e names (pushed ++ maybe a ++ maybe b) e
   | Filter nis fv e q =>
       (if nis || vis_ok pushed fv q e then 0 else 7)
+      |>| (if nonempty (inter (cmp_vars_e e) (bool_vars q)) then 9 else 0)
       |>| scan names inex pushed q
       |>| scan_e names (if nis then pushed ++ maybe q
                   else inter pushed (match fv with Some l => l | None => [] end) ++ maybe q) e
@@ -219,6 +228,7 @@ Fixpoint scan (names : list term) (inex : bool) (pushed : list var) (p : alg) {s
   | Extend xv q v e =>
       (if memv v pushed || memv v (maybe q) then 1 else 0)
       |>| (if vis_ok pushed xv q e then 0 else 7)
+      |>| (if nonempty (inter (cmp_vars_e e) (bool_vars q)) then 9 else 0)
       |>| scan names inex pushed q
       |>| scan_e names (inter pushed (match xv with Some l => l | None => [] end) ++ maybe q) e
   | Project q vs =>
@@ -233,13 +243,14 @@ Fixpoint scan (names : list term) (inex : bool) (pushed : list var) (p : alg) {s
   end
 with scan_e (names : list term) (pushed : list var) (e : expr) {struct e} : N :=
   match e with
-  | ECmp _ a b | EAnd a b | EOr a b => scan_e names pushed a |>| scan_e names pushed b
-  | ENot a => scan_e names pushed a
+  | ECmp _ a b | EAnd a b | EOr a b | ECoalesce a b => scan_e names pushed a |>| scan_e names pushed b
+  | ENot a | EIn _ a _ => scan_e names pushed a
+  | EIf c a b => scan_e names pushed c |>| scan_e names pushed a |>| scan_e names pushed b
   | EExists _ p => scan names true pushed p
   | _ => 0
   end.
 
-Definition kf (c : case) : N :=
-  let p := c_alg c in
-  scan (map fst (ds_named (c_ds c))) false [] p
-  |>| (if nonempty (inter (bool_vars p) (cmp_vars p)) then 9 else 0).
+(* F-C04-9 is checked where a comparison is evaluated (Filter, Extend, LeftJoin: a
+   compared variable that the pattern at hand may bind to a BIND-made boolean);
+   C04_pushdown shows that this local form is enough *)
+Definition kf (c : case) : N := scan (map fst (ds_named (c_ds c))) false [] (c_alg c).
